@@ -51,6 +51,7 @@ class Scheduler:
         self.started = {}
         self.blocked_forever = set()
         self.pending = {}
+        self.ever_interrupted = set()      # threads an interrupt was ever addressed to
         # who waits in join() on whom: joiner -> {'target', 'timed', 'steps'}; the grader waits on the runner, and a
         # runner importing another student file under a time limit waits on that import's own thread
         self.waits = {}
@@ -101,6 +102,11 @@ class Scheduler:
         self.waits.pop(joiner, None)
         self.log.append(('timer fires', where) if joiner == 'G' else ('timer of', joiner, 'fires', where))
         self.switch(me, joiner)
+
+    def never_interrupted(self):
+        """started threads that are still alive and that nobody ever addressed an interrupt to"""
+        return sorted(n for n in self.alive if n != 'G' and self.started.get(n) and self.alive.get(n)
+                      and n not in self.ever_interrupted)
 
     def others(self, me):
         return [n for n in self.alive if n != me and self.runnable(n)]
@@ -443,6 +449,7 @@ def install():
         if name is None or not s.alive.get(name):
             raise ValueError("nonexistent thread id")      # what PyThreadState_SetAsyncExc reports
         s.pending[name] = exception() if isinstance(exception, type) else exception
+        s.ever_interrupted.add(name)
         s.log.append(('async exception set for', name))
 
     IT.run = run_wrap
